@@ -455,6 +455,35 @@ func runC01(c *Ctx) {
 			c01Block(c, r, cols, rows, c01Revisions[r.Intn(len(c01Revisions))], "pool")
 		}
 	}
+	// every Decimal precision (the width of the column is chosen from the precision: the band boundaries 9/10, 18/19,
+	// 38/39 and both ends), alone and followed by another column (a wrong width shifts everything after it), plain and wrapped
+	for prec := 1; prec <= 76; prec++ {
+		if !c.Thorough && !(prec <= 2 || (prec >= 8 && prec <= 11) || (prec >= 17 && prec <= 20) || (prec >= 37 && prec <= 40) || prec >= 75) {
+			continue
+		}
+		for _, wrap := range []string{"%s", "Array(%s)", "Nullable(%s)"} {
+			scale := prec / 2
+			t, err := parseCH(fmt.Sprintf(wrap, fmt.Sprintf("Decimal(%d, %d)", prec, scale)))
+			if err != nil {
+				R.Note("decimal type does not parse: %v", err)
+				continue
+			}
+			t2, _ := parseCH("String")
+			k := 0
+			cols, err := buildCols(r, 2, 3, genOpts{}, func() *TNode {
+				k++
+				if k == 1 {
+					return t
+				}
+				return t2
+			})
+			if err != nil {
+				R.Count("unconstructible")
+				continue
+			}
+			c01Block(c, r, cols, 3, 54460, "decimal-precision")
+		}
+	}
 	// LowCardinality dictionary width boundaries
 	widths := []int{254, 255, 256, 257}
 	if c.Thorough {
